@@ -339,6 +339,18 @@ func (g *Gen) havocTarget(env *Env, st *State, m Expr) error {
 	switch x := m.(type) {
 	case *Ident:
 		if gv, ok := g.W.C.Ghosts[x.Name]; ok {
+			if gv.T.Kind == "set" {
+				et, err := g.W.lookupType(gv.T.Elem, gv.PkgPath)
+				if err != nil {
+					return err
+				}
+				srt := arrSort(g.W.shapes.shape(et)[0].Sort, sBool)
+				key := "G|" + gv.Name + "|"
+				g.compTerm(st, key, srt)
+				g.setComp(st, key, srt, g.fresh("G."+gv.Name, srt))
+				g.logWrite(key, "")
+				return nil
+			}
 			t, err := env.ghostType(gv)
 			if err != nil {
 				return err
